@@ -45,6 +45,24 @@ CUT = "kaira/constraints/utils.py"
 
 def seq_loop(rep: Report, fi: FuncInfo, list_expr_ok, forward_args: bool, what: str) -> None:
     body = fi.body
+    # pass-local state must be local: an attribute of the instance that one pass both writes and reads is shared by
+    # every pass running through the same instance (ParallelModel runs its branches in threads)
+    stores = {}
+    for n_ in ast.walk(fi.node):
+        tg = []
+        if isinstance(n_, ast.Assign):
+            tg = [t for t0 in n_.targets for t in (t0.elts if isinstance(t0, (ast.Tuple, ast.List)) else [t0])]
+        elif isinstance(n_, (ast.AugAssign, ast.AnnAssign)):
+            tg = [n_.target]
+        for t in tg:
+            ch = attr_chain(t)
+            if ch and ch.startswith("self.") and ch.count(".") == 1:
+                stores.setdefault(ch, n_)
+    for ch, st_ in stores.items():
+        reads = [n_ for n_ in ast.walk(fi.node) if isinstance(n_, ast.Attribute) and isinstance(n_.ctx, ast.Load) and attr_chain(n_) == ch]
+        if reads or isinstance(st_, ast.AugAssign):
+            rep.violation("SEQ-REENTRANT", fi, f"{what}: {unparse(st_)}", f"the pass keeps its progress in `{ch}`, which every pass through the same instance shares: two overlapping passes (a pipeline used by two ParallelModel branches) skip or repeat stages depending on thread timing", node=st_)
+            return
     loops = [s for s in stmts_of(body) if isinstance(s, (ast.For, ast.While))]
     if len(loops) != 1 or not isinstance(loops[0], ast.For) or loops[0] not in body:
         rep.undecided("SEQ-LOOP", fi, what, f"expected exactly one top-level for-loop, found {len(loops)}")
@@ -114,6 +132,8 @@ def seq_loop(rep: Report, fi: FuncInfo, list_expr_ok, forward_args: bool, what: 
         rep.violation("SEQ-LOOP", fi, f"{what}: after the loop: {'; '.join(unparse(s) for s in post)[:120]}", "the model must return the last stage's result unchanged", node=post[0] if post else lp)
         return
     mid = [s for s in body[:idx] if s not in pre and not (isinstance(s, ast.Expr) and isinstance(s.value, ast.Constant))]
+    # a write-only bookkeeping attribute (never read by the pass, no call on the right) does not touch the pipeline
+    mid = [s for s in mid if not (isinstance(s, ast.Assign) and s in stores.values() and not any(isinstance(n_, ast.Call) for n_ in ast.walk(s.value)))]
     if mid:
         rep.undecided("SEQ-LOOP", fi, what, f"unexpected statement before the loop: {unparse(mid[0])[:80]}")
         return
